@@ -383,7 +383,9 @@ func (e *Exec) enabled() []transition {
 		case pSend:
 			if chanCanSend(t.ch) {
 				out = append(out, transition{t: t})
-			} else if t.ch != nil {
+			} else if t.ch != nil && t.ch.cap == 0 {
+				// rendezvous exists on unbuffered channels only: a sender facing a FULL buffer waits for
+				// space (a thread parked at a receive on that channel will take the queue's head first)
 				for _, r := range recvOn(t.ch, t) {
 					out = append(out, transition{t: t, partner: r.t, pcase: r.c})
 				}
@@ -399,7 +401,7 @@ func (e *Exec) enabled() []transition {
 					if chanCanSend(sc.ch) {
 						out = append(out, transition{t: t, caseIdx: i})
 						any = true
-					} else if sc.ch != nil {
+					} else if sc.ch != nil && sc.ch.cap == 0 {
 						for _, r := range recvOn(sc.ch, t) {
 							out = append(out, transition{t: t, caseIdx: i, partner: r.t, pcase: r.c})
 						}
